@@ -210,13 +210,27 @@ def check_dir(case, ev):
                 texts[name] = "\ufeff" + texts[name]  # a file saved with a byte-order mark: it is part of the first token
             with open(os.path.join(d, "in", name), "w", encoding="utf-8", newline="") as fh:
                 fh.write(texts[name])
-        _, exc = guarded(
-            anonymize_files, os.path.join(d, "in"), os.path.join(d, "out"), bool(pwd), bool(ip), salt=cfg["salt"],
-            sensitive_words=list(WORDS) if words else None, as_numbers=list(ASNS) if asn else None,
-            preserve_prefixes=None if cfg["prefixes"] is None else list(cfg["prefixes"]),
-            preserve_networks=None if cfg.get("networks") is None else list(cfg["networks"]),
-            preserve_suffix_v4=cfg["B4"], preserve_suffix_v6=cfg["B6"],
-        )
+        if case.get("latebad"):
+            # a large file whose only undecodable byte lies far behind the first read buffer
+            big = "".join(" description link %d to core\n" % j for j in range(3500)).encode() + b"! caf\xe9 \xff\n" + b" shutdown\n" * 20
+            with open(os.path.join(d, "in", "e_big.cfg"), "wb") as fh:
+                fh.write(big)
+        import logging
+
+        with core.capture_logs(logging.ERROR) as errs_:
+            _, exc = guarded(
+                anonymize_files, os.path.join(d, "in"), os.path.join(d, "out"), bool(pwd), bool(ip), salt=cfg["salt"],
+                sensitive_words=list(WORDS) if words else None, as_numbers=list(ASNS) if asn else None,
+                preserve_prefixes=None if cfg["prefixes"] is None else list(cfg["prefixes"]),
+                preserve_networks=None if cfg.get("networks") is None else list(cfg["networks"]),
+                preserve_suffix_v4=cfg["B4"], preserve_suffix_v6=cfg["B6"],
+            )
+        if exc is None and case.get("latebad") and not any("e_big.cfg" in m for _, m in errs_):
+            # not reported as failed: then it was processed, and its lines must all be there, once
+            p_ = os.path.join(d, "out", "e_big.cfg")
+            n_out = open(p_, "rb").read().count(b"\n") if os.path.isfile(p_) else -1
+            if n_out != big.count(b"\n"):
+                return Finding("dir/line-count-changed:file-with-a-late-undecodable-byte", "e_big.cfg is not reported as failed; %d lines in, %d lines out" % (big.count(b"\n"), n_out), case)
         if exc is not None:
             return core.exc_finding(exc, case, "run/")
         ev.case(case, len(chunks) >= 2, ["files%d" % len(chunks)])
@@ -381,6 +395,7 @@ def _dir_case(draw):
         c["features"][0] = True
     c["cuts"] = draw(st.lists(st.integers(1, max(1, len(c["lines"]) - 1)), min_size=1, max_size=3))
     c["bom"] = draw(st.integers(0, 3)) == 0
+    c["latebad"] = draw(st.integers(0, 5)) == 0
     return c
 
 
